@@ -325,6 +325,40 @@ func c11(c *Ctx) {
 			}
 		}
 	}
+	// every filesystem object is built with a root: a zero-value Htfs has the empty root, for which RealPath returns the
+	// client's (cleaned) path as a host path
+	nAlloc := 0
+	for _, fn := range p.Funcs() {
+		if fn.Blocks == nil || !InRepo(fn) || strings.HasSuffix(p.Fset.Position(fn.Pos()).Filename, "_test.go") {
+			continue
+		}
+		for _, b := range fn.Blocks {
+			for _, in := range b.Instrs {
+				a, ok := in.(*ssa.Alloc)
+				if !ok || NamedOf(a.Type().(*types.Pointer).Elem()) != s.htfs {
+					continue
+				}
+				if _, isPtr := a.Type().(*types.Pointer).Elem().(*types.Pointer); isPtr {
+					continue
+				}
+				nAlloc++
+				rooted := false
+				for _, st := range rootStores {
+					if fa, okFA := st.Addr.(*ssa.FieldAddr); okFA && fa.X == ssa.Value(a) {
+						rooted = true
+					}
+				}
+				// a whole-struct copy of another filesystem (`c := *f`)
+				for _, ref := range *a.Referrers() {
+					if st, isSt := ref.(*ssa.Store); isSt && st.Addr == ssa.Value(a) {
+						rooted = true
+					}
+				}
+				c.Check(rooted, "fs-object-rooted", shortFn(fn)+" builds an Htfs", p.InstrPos(a), "built with a root", "a filesystem object is created without a root (zero value): RealPath then joins the client's path to the empty string, so every absolute path a client sends names that path on the host – the whole host file system is listed, read, written and deleted through the service")
+			}
+		}
+	}
+	c.Floor("fs-object-rooted", 2, "filesystem.New and Clone")
 	inv := true
 	for _, st := range cwdStores {
 		key := shortFn(st.Parent()) + " stores Htfs.cwd"
